@@ -142,12 +142,27 @@ pub fn gen_model(r: &mut Rng, with_tags: bool) -> ModelData {
             cngrams.push(g);
         }
     }
-    let char_ngram_model = NgramModel(
+    let mut char_ngram_model = NgramModel(
         cngrams.iter().map(|g| NgramData {
             ngram: g.iter().collect::<String>(),
             weights: (0..(2 * cw as usize + 1 - g.len())).map(|_| r.weight()).collect(),
-        }).collect(),
+        }).collect::<Vec<_>>(),
     );
+    // now and then an entry whose weights exactly CANCEL those of its own suffix entry (the sum over both occurrences is
+    // zero at every boundary): "optimisations" that drop all-zero merged entries then resurrect the suffix's weights
+    if r.below(4) == 0 {
+        let k = r.below(cngrams.len());
+        let a = cngrams[k].clone();
+        let mut b = rand_chars(r, 1);
+        b.extend(a.iter());
+        if b.len() <= 2 * cw as usize && !cngrams.contains(&b) {
+            let n = char_ngram_model.0[k].weights.len();
+            char_ngram_model.0[k].weights[n - 1] = 0;
+            let wb: Vec<i32> = char_ngram_model.0[k].weights[..n - 1].iter().map(|x| -x).collect();
+            char_ngram_model.0.push(NgramData { ngram: b.iter().collect::<String>(), weights: wb });
+            cngrams.push(b);
+        }
+    }
     let mut tngrams: Vec<Vec<u8>> = vec![];
     let n_t = 1 + r.below(5);
     while tngrams.len() < n_t {
@@ -231,6 +246,8 @@ pub fn gen_model(r: &mut Rng, with_tags: bool) -> ModelData {
                         ws.push(TagWeight { rel_position: rel, weights: (0..n_scores).map(|_| if ties { r.small_weight() } else { r.weight() }).collect() });
                     }
                 }
+                // the file format does not order the entries of one n-gram by relative position: sometimes reversed
+                if r.below(3) == 0 { ws.reverse(); }
                 cg.push(TagNgramData { ngram: g, weights: ws });
             }
             let mut tg: Vec<TagNgramData<Vec<u8>>> = vec![];
@@ -248,6 +265,7 @@ pub fn gen_model(r: &mut Rng, with_tags: bool) -> ModelData {
                         ws.push(TagWeight { rel_position: rel, weights: (0..n_scores).map(|_| if ties { r.small_weight() } else { r.weight() }).collect() });
                     }
                 }
+                if r.below(3) == 0 { ws.reverse(); }
                 tg.push(TagNgramData { ngram: g, weights: ws });
             }
             tag_models.push(TagModel {
